@@ -79,7 +79,15 @@ void EpollLoop::runLoop(Mode mode)
 
         for (int i = 0; i < fds; ++i) {
             epoll_event &ev = events.at(i);
-            EpollFdEvent::OnEventCallback(ev.events, ev.data.ptr);
+            //! 前面的回调中可能已将该fd的所有FdEvent都销毁了，其共享数据也已被回收，所以这里要重新查找
+            auto iter = fd_data_map_.find(ev.data.fd);
+            if (iter == fd_data_map_.end())
+                continue;
+
+            EpollFdSharedData *fd_shared_data = iter->second;
+            ++fd_shared_data->ref;  //! 防止在回调过程中被回收
+            EpollFdEvent::OnEventCallback(ev.events, fd_shared_data);
+            unrefFdSharedData(fd_shared_data->fd);
         }
 
         //handleRunInLoopFunc();
@@ -114,7 +122,7 @@ EpollFdSharedData* EpollLoop::refFdSharedData(int fd)
 
         ::memset(&fd_shared_data->ev, 0, sizeof(fd_shared_data->ev));
         fd_shared_data->fd = fd;
-        fd_shared_data->ev.data.ptr = static_cast<void *>(fd_shared_data);
+        fd_shared_data->ev.data.fd = fd;
 
         fd_data_map_.insert(std::make_pair(fd, fd_shared_data));
     }
